@@ -2,6 +2,7 @@
 """run_seed.py <seeded/NAME> [tier]  — applies the seeded patch to /repo, runs the property's check,
 undoes the patch, records the outcome in meta.json (caught / how)."""
 import fcntl, json, os, re, subprocess, sys
+os.environ['VERIF_SEED_LOCK_HELD'] = '1'
 _lock = open('/tmp/verif-seed.lock', 'w'); fcntl.flock(_lock, fcntl.LOCK_EX)   # one seeded patch in /repo at a time
 d = sys.argv[1].rstrip('/'); tier = sys.argv[2] if len(sys.argv) > 2 else 'quick'
 meta = json.load(open(d + '/meta.json')); pid = meta['property']
